@@ -465,10 +465,57 @@ def check_ff_faults(seq, acc):
                 kind, idx + 1, mutated[idx:idx + 2]), case)
 
 
+def check_ff_two_files(seq1, seq2, acc):
+    """Two files into one ForceField object: the result must be the first file's content followed by the second's."""
+    from vermouth.forcefield import ForceField
+    from vermouth.ffinput import read_ff
+    lines1, exp1, _ = ff_file(seq1)
+    # the second file gets indices that continue after the first, so that names stay unique
+    st = {}
+    lines2, exp2 = [], {'variables': {}, 'blocks': [], 'links': [], 'modifications': []}
+    seen_context = False
+    error2 = False
+    for i, kind in enumerate(seq2, start=len(seq1)):
+        chunk_lines, (what, declared) = FF_CHUNKS[kind](i, st)
+        if kind == 'variables' and seen_context:
+            error2 = True
+        if kind in CONTEXT:
+            seen_context = True
+        lines2.extend(chunk_lines)
+        if what == 'variables':
+            exp2['variables'].update(declared)
+        elif what:
+            exp2[what + 's'].append(declared)
+    if exp1 == 'error' or error2:
+        return
+    case = {'layer': 'ff-two-files', 'first': list(seq1), 'second': list(seq2)}
+    ff = ForceField(name='verif')
+    try:
+        read_ff(lines1, ff)
+        read_ff(lines2, ff)
+    except Exception as err:   # pylint: disable=broad-except
+        acc.case(outcome='err')
+        acc.violation('ff:two-files-rejected', 'two well-formed files into one force field: %r' % (err,), case)
+        return
+    got = {'variables': cv(dict(ff.variables)), 'blocks': [canon_block(b) for b in ff.blocks.values()],
+           'links': [canon_link(l) for l in ff.links], 'modifications': [canon_link(m) for m in ff.modifications.values()]}
+    expected = {'variables': dict(exp1['variables'], **exp2['variables']), 'blocks': exp1['blocks'] + exp2['blocks'],
+                'links': exp1['links'] + exp2['links'], 'modifications': exp1['modifications'] + exp2['modifications']}
+    acc.case(nontrivial=True, outcome=('ff2', len(got['blocks']), len(got['links']), len(got['modifications'])),
+             sample=case if acc.states % 211 == 0 else None)
+    diff = first_difference(got, expected)
+    if diff:
+        acc.violation('ff:two-files-content', 'after reading two files into one force field the content differs from first + second at %s' % diff, case)
+
+
 def work(task):
     common.bind_repo()
     kind, items = task
     acc = Acc()
+    if kind == 'ff2':
+        for seq1, seq2 in items:
+            check_ff_two_files(seq1, seq2, acc)
+        return acc
     if kind == 'ff':
         for n, seq in enumerate(items):
             check_ff(seq, acc, sample=(n % 401 == 0))
@@ -502,6 +549,14 @@ def run(ctx):
     for part in common.pmap(work, [('ff-fault', chunk) for chunk in common.chunked(fseqs, max(1, len(fseqs) // 64))]):
         acc += part
     ctx.layer('ff-faults', acc)
+    short = [s for s in seqs if len(s) <= 2]
+    pairs = [(a, b) for a in short for b in short if 'macros' not in b or 'macros' in a or True]
+    if ctx.quick:
+        pairs = [(a, b) for a in short for b in short if len(a) + len(b) <= 3]
+    acc = Acc()
+    for part in common.pmap(work, [('ff2', chunk) for chunk in common.chunked(pairs, max(1, len(pairs) // 64))]):
+        acc += part
+    ctx.layer('ff-two-files-one-force-field', acc)
     from props import c13_other
     c13_other.run_layers(ctx)
 
@@ -510,7 +565,9 @@ def replay(case):
     common.bind_repo()
     acc = Acc()
     layer = case['layer']
-    if layer == 'ff':
+    if layer == 'ff-two-files':
+        check_ff_two_files(tuple(case['first']), tuple(case['second']), acc)
+    elif layer == 'ff':
         check_ff(tuple(case['chunks']), acc)
     elif layer == 'ff-fault':
         lines, expected, owner = ff_file(tuple(case['chunks']))
